@@ -18,6 +18,7 @@ from . import common
 env.import_redress()
 
 from redress import AsyncRetry, Classification, ErrorClass, Retry  # noqa: E402
+from redress.errors import RateLimitError  # noqa: E402
 from redress.extras.http import _parse_retry_after, http_retry_after_classifier  # noqa: E402
 from redress.strategies import retry_after_or  # noqa: E402
 
@@ -31,6 +32,32 @@ class Http429(Exception):
     def __init__(self, status=429):
         super().__init__("rate limited")
         self.status = status
+
+
+class Http429b(Http429):
+    """the status under `status_code`"""
+
+    def __init__(self, status=429):
+        Exception.__init__(self, "rate limited")
+        self.status_code = status
+
+
+class Http429c(Http429):
+    """the status under `code`"""
+
+    def __init__(self, status=429):
+        Exception.__init__(self, "rate limited")
+        self.code = status
+
+
+class TypedRateLimit(RateLimitError, Http429):
+    """RATE_LIMIT by marker type only: an SDK's typed error without any numeric status"""
+
+    def __init__(self, status=429):
+        Exception.__init__(self, "rate limited")
+
+
+CARRIERS = [Http429, Http429, Http429b, Http429c, TypedRateLimit]
 
 
 class MapSub(Mapping):
@@ -89,7 +116,8 @@ RESP_KINDS = [Resp, Resp, FalsyResp, EmptyLenResp]
 
 def mk_exc(value, shape, casing, where, status=429):
     """Build an exception carrying `value` as its Retry-After in the given container shape."""
-    e = Http429(status)
+    # how the failure comes to be RATE_LIMIT rotates with the case: status / status_code / code = 429, or a typed error without a status
+    e = (CARRIERS[(len(casing) + len(shape) + len(where) + len(type(value).__name__) + (len(value) if isinstance(value, str) else 0)) % len(CARRIERS)] if status == 429 else Http429)(status)
     if where == "attr":
         e.retry_after = value
         return e, "attr"
